@@ -504,7 +504,7 @@ func c14Panics(c *core.Ctx) {
 // each with the reason the panic cannot fire on any input.
 var panicAllowed = map[string]string{
 	"note.(Message).JSONSchemaExtend#panic1": "unmarshals a constant JSON literal compiled into the binary; reachable only from schema generation, not from document input",
-	"uuid.SetRandomNodeID#panic1":           "start-up helper with no caller in the module; panics only when the system random source fails, not on any input",
+	"uuid.SetRandomNodeID#panic1":            "start-up helper with no caller in the module; panics only when the system random source fails, not on any input",
 }
 
 // dispatchComplete decides a panic that follows type assertions on a value
